@@ -265,7 +265,7 @@ def selected_material(prog, f, public, alg):
     bind = {'%s.public' % me: Const(public), '%s.pkalg' % me: alg, '%s._pkalg' % me: alg}
     args = {p: alg for p in f.params[1:]}
     out = set()
-    for s in Interp(prog, Scenario(bind=bind, args=args, inline=noinline, tables=True)).run(f):
+    for s in Interp(prog, Scenario(bind=bind, args=args, inline=noinline, extended=True)).run(f):
         if s.raised is not None:
             continue
         vals = [v for p, t, l, v in s.stores if p == '%s.keymaterial' % me]
@@ -369,7 +369,7 @@ def check_export(rep, prog):
             if t == 'isinstance(%s._key,Private)' % m.params[0]:
                 return _b
             return None
-        for s_ in Interp(prog, Scenario(inline=noinline, oracle=oracle, inline_props={'is_public'}, tables=True)).run(m):
+        for s_ in Interp(prog, Scenario(inline=noinline, oracle=oracle, inline_props={'is_public'}, extended=True)).run(m):
             r = render(s_.ret)
             folded = fold_str(r)
             if folded is None:
